@@ -436,6 +436,10 @@ func checkC07(p *core.Program, r *core.Report) {
 		}
 	}
 	r.Check(okSave, "R5", "Results.Save/always-stores", p.Pos(save.Pos()), "r[key] = result dominates every return", "Results.Save does not store the new result on every path: a re-routing with the same value and category keeps the earlier input, node and extra")
+
+	// ------------------------------------------------------------------ R6 language of the case arguments
+	r.Rule("R6", "the case arguments and category names a router compares and saves are looked up with the documented language fallback (imported from C18/R1 R2): with the wrong language the first matching case is not the one the definition prescribes")
+	importObligations(p, r, "C18", map[string]bool{"R1": true, "R2": true}, "R6", "router case arguments are taken from the wrong language")
 }
 
 // c07SelectedByUUID: cat is an element of recv.categories picked on the edge where element.UUID() == want — in this
